@@ -458,6 +458,9 @@ namespace pika::threads::detail {
                     }
                     else if (PIKA_UNLIKELY(state_val == thread_schedule_state::pending_boost))
                     {
+#if defined(PIKA_VERIF)
+                        PIKA_VERIF_POINT(112, get_thread_id_data(thrd), num_thread, 0);
+#endif
                         get_thread_id_data(thrd)->set_state(thread_schedule_state::pending);
 
                         if (PIKA_LIKELY(next_thrd == nullptr))
